@@ -18,6 +18,10 @@ CHECKS = {
    text="Bounded exhaustive symbolic check of relations between runs of the real detectors: refinement by interior non-reversal samples (values symbolic between neighbours, inclusive), negation, positive affine map (symbolic offset, scale from a finite set), NaN removal with index correction (all interior NaN placements up to the bound), Series with five index types vs. plain array.",
    note="Bounds: base length 3..5 + 1 inserted sample (quick) / 3..6 + 1 and 3..4 + 2 (thorough); negation/affine length 2..5 / 2..7; NaN: length 4..5 / 4..6 with <= 2 NaN; scale in {0.5, 2, 3, 1000}. Floats as reals.",
    design="6 C03"),
+ "C07": dict(
+   text="Bounded exhaustive symbolic check of the real Binned class (table construction and all four look-up functions; scalar, Series and multi-point branches) against the upper-class-edge rule: symbolic L_max > 0 and load(s), wrapped law as uninterpreted functions, so the position of the load relative to every class edge (incl. exactly on an edge, zero, both signs, out of range) is a path; result term == oracle term, ValueError exactly outside the initialised range, never under-estimates, less than one class, monotone, Series == scalar, multi-point == per point.",
+   note="Bound: bin counts 1..4 (quick) / 1..8, 16, 100 (thorough; Series/monotone up to 8, multi-point up to 4 bins, ratios 1/2, 2, 3). Wrapped law is a contract stub (uninterpreted functions / identity law). Class edges are fl(k/n)*L_max as in the real table; floats otherwise modelled as reals.",
+   design="6 C07"),
 }
 NA = {
  "C06": "subject is convergence/accuracy of scipy Newton/secant iterations on equations with real-exponent powers: no SMT theory for x**y, cos, log or for float iteration convergence; stubbing the power removes the subject",
